@@ -3,6 +3,7 @@ from .. import mir, hir
 from ..callgraph import CallGraph
 from ..facts import relfile
 from ..report import RuleResult
+from .c08 import deps
 
 EXPLANATION = (
     "Reachability of every item under every library is not decided. Decided: I1 the use-path walker feeds its accumulator (the scope "
@@ -18,6 +19,9 @@ EXPLANATION += (
 )
 EXPLANATION += (  # round-3 supplement
     ' I7 declare_type looks earlier registrations up by TypeId alone, a hit is an error, the entry is added afterwards. I8 rust_type_to_roto_type maps each constructor to the Roto constructor of the same name with its components in order.'
+)
+EXPLANATION += (
+    ' I9 sibling agreement of the recursive registration passes: each descends into a module (or impl) with the scope looked up for it, never with the scope it was called with. I10 an import is registered only after the imported name was found (some function between Rt::declare_import and the insertion gates the onward call on a lookup of the same name). I11 a context type is stored only after every field type was found among the types of this runtime (discharges the unwrap in TypeChecker::declare_context).'
 )
 ASSUMPTIONS = [
     "crate-internal generic signatures (Function::new_generic, pub(crate) unsafe) are well-formed: parse_sig/evaluate_type_expr unwraps are reachable only from there",
@@ -417,6 +421,140 @@ def rule_i5(F):
     return r
 
 
+def rule_i9(F):
+    """Sibling agreement of the recursive registration passes: each declare_* pass that walks the item tree descends into a module
+    with the module's own scope (obtained from get_scope_of / declare_runtime_module), never with the scope it was called with."""
+    r = RuleResult("C18.I9", "every recursive registration pass descends into a module with the module's own scope", floor=4)
+    for b in F.bodies_in(["src/runtime/mod.rs"]):
+        if not b.mir or "::tests::" in b.path or "{closure" in b.path:
+            continue
+        scope_params = [i + 1 for i in range(b.mir["argc"]) if "ScopeRef" in b.mir["locals"][i + 1]["ty"]]
+        if not scope_params:
+            continue
+        defs = None
+        for bi, t in mir.calls(b):
+            if mir.callee(t) != b.path:
+                continue
+            defs = defs or mir.Defs(b)
+            for sp in scope_params:
+                if len(t["args"]) < sp or not mir.is_place_op(t["args"][sp - 1]):
+                    continue
+                a = t["args"][sp - 1]
+                srcs = {hir.last(mir.callee(b.blocks[x]["term"]) or "") for x in mir.back_calls(b, defs, a[1][0])}
+                own = bool(srcs & {"get_scope_of", "declare_runtime_module", "declare_module"})
+                r.inst("%s recursion" % hir.last(b.path), {"fn": b.path, "line": t.get("line"), "scope_from": sorted(srcs) or ["the incoming scope"]})
+                if not own:
+                    r.bad(b.path, "module descent with the incoming scope", relfile(b.file), t.get("line"),
+                          "%s descends into the children of a module with the scope it was called with instead of the module's own scope (its sibling passes look the scope up with get_scope_of): "
+                          "items of the module are declared one level too high (`mod bar { use foo::one; }` makes `one` usable at the top level)" % hir.last(b.path))
+    return r
+
+
+def rule_i10(F):
+    """A use declaration must name an existing item: somewhere on the way from Rt::declare_import to the insertion of the import the
+    name is looked up and the insertion only happens when the lookup succeeded."""
+    r = RuleResult("C18.I10", "an import is only registered after the imported name was found", floor=1)
+    chain = []
+    for suffix in ("runtime::Rt::declare_import", "::declare_runtime_import", "::insert_import"):
+        ps = [p for p in F.paths() if p.endswith(suffix) and "{closure" not in p]
+        if not ps:
+            r.missing(suffix)
+            return r
+        chain.append(F.body(ps[0]))
+    LOOKUPS = ("resolve_name", "get", "contains_key", "get_declaration", "get_key_value")
+    gated = []
+    for i, b in enumerate(chain):
+        defs = mir.Defs(b)
+        dom = mir.dominators(b)
+        if i + 1 < len(chain):
+            onward = [(bi, t) for bi, t in mir.calls(b) if mir.callee(t) == chain[i + 1].path]
+        else:
+            onward = [(bi, t) for bi, t in mir.calls(b) if hir.last(mir.callee_def(t) or "") in ("insert", "entry")]
+        if not onward:
+            r.missing("onward call in " + hir.last(b.path))
+            return r
+        for obi, ot in onward:
+            oroots = set()
+            for a in ot["args"][1:]:
+                if mir.is_place_op(a):
+                    oroots |= {x.split(".")[0] for x in deps(b, defs, a[1][0])}
+            for lbi, lt in mir.calls(b):
+                n = hir.last(mir.callee_def(lt) or mir.callee(lt) or "")
+                if n not in LOOKUPS or lbi == obi or lbi not in dom[obi]:
+                    continue
+                lroots = set()
+                for a in lt["args"][1:]:
+                    if mir.is_place_op(a):
+                        lroots |= {x.split(".")[0] for x in deps(b, defs, a[1][0])}
+                # the last path component of the use must be among what is looked up: get_scope_of of the leading components is not enough
+                if not (lroots & oroots):
+                    continue
+                if mir.decided_by(b, defs, dom, lbi, obi):
+                    gated.append("%s: %s decides %s" % (hir.last(b.path), n, hir.last(mir.callee(ot) or "")))
+    r.inst("declare_import -> insert_import", {"existence checks": gated})
+    if not gated:
+        r.bad(chain[0].path, "import of a name that was never looked up", relfile(chain[1].file), chain[1].line,
+              "a `use` item is registered without checking that the named item exists: registration succeeds and a script that mentions the name panics in the type checker (unwrap on a missing declaration)")
+    return r
+
+
+def rule_i11(F):
+    """TypeChecker::declare_context unwraps Rt::get_runtime_type for every context field.  That obligation is discharged at
+    registration: register_context_type looks every field type up among the types of THIS runtime (not only in the process-wide
+    TypeRegistry, which other runtimes fill) and only stores the context when every lookup succeeded."""
+    r = RuleResult("C18.I11", "a context type is only accepted when every field type is registered with this runtime", floor=1)
+    ps = [p for p in F.paths() if p.endswith("::register_context_type") and "{closure" not in p]
+    if not ps:
+        r.missing("Rt::register_context_type")
+        return r
+    b = F.body(ps[0])
+    defs = mir.Defs(b)
+    dom = mir.dominators(b)
+    # the store of the context: an assignment to (*self).context
+    stores = []
+    for bi, blk in enumerate(b.blocks):
+        for st in blk["stmts"]:
+            if st["k"] == "assign" and st["p"][0] == 1 and any(isinstance(x, list) and x[0] == "f" and x[-1] == "context" for x in st["p"][1:]):
+                stores.append(bi)
+    if not stores:
+        r.missing("store to self.context in register_context_type")
+        return r
+    loops = mir.natural_loops(b)
+    LOCAL = ("get_runtime_type",)
+    checks = []
+    for lbi, lt in mir.calls(b):
+        n = hir.last(mir.callee(lt) or "")
+        is_local = n in LOCAL
+        if not is_local and hir.last(mir.callee_def(lt) or "") in ("find", "any", "position", "contains"):
+            a0 = lt["args"][0] if lt["args"] else None
+            is_local = mir.is_place_op(a0) and any(x.startswith("arg1") and ".types" in x for x in deps(b, defs, a0[1][0]))
+        if not is_local:
+            continue
+        for sb in stores:
+            # a branch on the lookup's result with a side that never reaches the store
+            decides = False
+            for si, blk in enumerate(b.blocks):
+                t = blk["term"]
+                if t["k"] != "switch" or lbi not in dom[si]:
+                    continue
+                l = mir.op_local(t["o"])
+                if l is None or lbi not in mir.back_calls(b, defs, l):
+                    continue
+                if any(sb not in (mir.reachable_from(b, s) | {s}) for s in mir.succs(blk)):
+                    decides = True
+            # the lookup runs for every field: its loop header lies on every path to the store
+            hdrs = [h for h, nodes in loops if lbi in nodes]
+            on_path = any(h in dom[sb] for h in hdrs) or lbi in dom[sb]
+            if decides and on_path:
+                checks.append("%s at line %s" % (n, lt.get("line")))
+    r.inst("register_context_type", {"lookups among this runtime's types that decide the store": checks})
+    if not checks:
+        r.bad(b.path, "context stored without looking the field types up in this runtime", relfile(b.file), b.line,
+              "register_context_type accepts a context whose field types are only known to the process-wide TypeRegistry (filled by other runtimes): "
+              "TypeChecker::declare_context then unwraps get_runtime_type on None and every compilation with this runtime panics")
+    return r
+
+
 def rules(ctx):
     F = ctx["F"]
-    return [rule_i1(F), rule_i2(F), rule_i3(F), rule_i4(F), rule_i5(F), rule_i6(F), rule_i7(F), rule_i8(F)]
+    return [rule_i1(F), rule_i2(F), rule_i3(F), rule_i4(F), rule_i5(F), rule_i6(F), rule_i7(F), rule_i8(F), rule_i9(F), rule_i10(F), rule_i11(F)]
